@@ -400,6 +400,24 @@ def good_fixed2():
     return Fixed2
 
 
+class FixedCaps(Entity):
+    """module level class with upper / mixed case port names (compiled repeatedly: per-class bookkeeping keyed by port name)"""
+    CLK = Port.input(Bit)
+    Din = Port.input(Unsigned[3])
+    LED = Port.output(Unsigned[3], default=0)
+    busyFlag = Port.output(Bit, default=False)
+
+    def architecture(self):
+        @std.sequential(std.Clock(self.CLK))
+        def proc():
+            self.LED <<= self.Din + 1
+            self.busyFlag <<= self.Din[0]
+
+
+def good_fixed_caps():
+    return FixedCaps
+
+
 GOOD = {k[5:]: v for k, v in list(globals().items()) if k.startswith('good_')}
 
 
